@@ -26,6 +26,8 @@
 //	every op of the W lines         over cursor registers; A and R reset the registers (a tree must not
 //	                                be edited under a cursor); key lists longer than 200 are printed
 //	                                as #<len>~<first>~<last>~<digest>
+//	the tree operations of session.go (round 4): single edits, Clone into other tree slots, Tree.Inorder /
+//	                                InorderAfter stopped at any position, Min, Max, Len
 package main
 
 import (
@@ -213,6 +215,7 @@ func inorderKeys(t *stree.Tree[int]) []int {
 	var all []int
 	for k := range t.Inorder {
 		all = append(all, k)
+		runaway(len(all), t)
 	}
 	return all
 }
@@ -386,7 +389,7 @@ func probe(t *stree.Tree[int], s int) string {
 		}
 		cnt := 0
 		var sub dig
-		c.Inorder(func(x int) bool { cnt++; sub.add(x); return true })
+		c.Inorder(func(x int) bool { cnt++; sub.add(x); runaway(cnt, t); return true })
 		sino += cnt
 		dino.add(cnt)
 		dino.add(int(sub.h1))
@@ -485,23 +488,27 @@ func execBig(f []string) string {
 			items = append(items, "?")
 			return
 		}
-		t := stree.New(beta, cmpFor(f[1]))
-		m := &machine{t: t, big: true}
+		s := newSession(f[1], beta)
 		for _, op := range split(f[3], ";") {
+			t, m := s.trees[s.cur], s.machs[s.cur]
 			if it, ok := applyMacro(t, op); ok {
 				if it != "?" {
-					*m = machine{t: t, big: true} // the tree was edited: every cursor is dropped
+					*m = machine{t: t, big: true} // the tree was edited: every cursor of it is dropped
 				}
 				items = append(items, it)
 				continue
 			}
 			if op[0] == 'Q' {
-				s, ok := atoiOK(op[1:])
-				if !ok || s < 0 || s > 64 {
+				sw, ok := atoiOK(op[1:])
+				if !ok || sw < 0 || sw > 64 {
 					items = append(items, "?")
 					continue
 				}
-				items = append(items, probe(t, s))
+				items = append(items, probe(t, sw))
+				continue
+			}
+			if it, ok := s.treeOp(op); ok {
+				items = append(items, it)
 				continue
 			}
 			items = append(items, m.op(op))
